@@ -327,6 +327,8 @@ def _sig_for(tr, v):
     """The discriminating signature of a failed clause at (trace, step i, item k)."""
     s = tr["steps"][v["i"] - 1]
     sig = {"ver": s["req"]["ver"] if "req" in s else 0}
+    if "req" in s:
+        sig["hasg"] = s["req"]["hasg"]
     if v["k"] and "req" in s and v["k"] <= len(s["req"]["items"]):
         it = s["req"]["items"][v["k"] - 1]
         sig["op"] = it["op"]
